@@ -1115,6 +1115,81 @@ Definition v_api_nlri (x : api_nlri) : val :=
 Definition v_onlri (o : option nlri) : val :=
   match o with Some n => VL [VI 1; v_nlri n] | None => VL [VI 0] end.
 
+(* ------------------------------------------------------------------ *)
+(* GrpcService::local_path: family, NLRI, then the attributes one by one      *)
+Section LocalPath.
+  Variable v6r : list N -> option N.
+
+  (* bgp::Nexthop::from_bytes followed by to_bytes: the bytes the path keeps *)
+  Definition nexthop_from_bytes (b : list N) : option (list N) :=
+    if Nat.eqb (length b) 4 || Nat.eqb (length b) 16 then Some b
+    else if Nat.eqb (length b) 32 then
+      (if forallb (fun x => x =? 0) (skipn 16 b) then Some (firstn 16 b) else Some b)
+    else None.
+
+  Definition is_flowspec (fam : N) : bool :=
+    (fam =? 65669) || (fam =? 131205) || (fam =? 65670) || (fam =? 131206).
+
+  Fixpoint lp_loop (fam : N) (xs : list api_attr) (acc : list attr) (nh : option (list N))
+    : option (list attr * option (list N)) :=
+    match xs with
+    | [] => Some (acc, nh)
+    | x :: r =>
+        match from_api v6r x with
+        | Ok (Some a) =>
+            let c := a_code a in
+            if c =? MP_REACH then
+              match a_data a with
+              | DVal _ => None
+              | DBin b | DOpaque b =>
+                  let nh_len := nth 3 b 1 in
+                  let nexthop :=
+                    match nth_error b 3 with
+                    | None => None
+                    | Some len =>
+                        if Nat.ltb (length b) (5 + N.to_nat len) then None
+                        else nexthop_from_bytes (firstn (N.to_nat len) (skipn 4 b))
+                    end in
+                  match nexthop with
+                  | None => if (nh_len =? 0) && is_flowspec fam then lp_loop fam r acc None else None
+                  | Some _ => lp_loop fam r acc nexthop
+                  end
+              end
+            else if c =? NEXTHOP then
+              lp_loop fam r acc (match a_data a with DVal _ => None | DBin b | DOpaque b => nexthop_from_bytes b end)
+            else if (c =? ORIGINATOR_ID) || (c =? CLUSTER_LIST) || (c =? MP_UNREACH) then lp_loop fam r acc nh
+            else lp_loop fam r (acc ++ [a]) nh
+        | _ => None
+        end
+    end.
+
+  Definition with_defaults (k : list attr) : list attr :=
+    let k1 := if existsb (fun a => a_code a =? ORIGIN) k then k else k ++ [mkAttr ORIGIN 64 (DVal 0)] in
+    if existsb (fun a => a_code a =? AS_PATH) k1 then k1 else k1 ++ [mkAttr AS_PATH 64 (DBin [])].
+
+  (* family: Some (afi * 65536 + safi) or absent (IPv4 unicast) *)
+  Definition local_path (fam : option N) (n : api_nlri) (xs : list api_attr)
+    : option (N * nlri * list attr * option (list N)) :=
+    let family := match fam with Some f => f | None => 65537 end in
+    match net_from_api v6r n with
+    | None => None
+    | Some net =>
+        match lp_loop family xs [] None with
+        | None => None
+        | Some (acc, nh) => Some (family, net, with_defaults acc, nh)
+        end
+    end.
+End LocalPath.
+
+Definition run_local_path_case (fam : option N) (n : api_nlri) (xs : list api_attr) (id : N) : val :=
+  match local_path v6_parse fam n xs with
+  | None => VL [VI 0]
+  | Some (family, net, attrs, nh) =>
+      VL [VI 1; VN family; v_nlri net; VN id; VList v_attr attrs;
+          VNs (match nh with Some b => b | None => [] end);
+          v_res (fun z => VB (z <? 0)%Z) (rib_cmp attrs 2 competitor 1)]
+  end.
+
 (* kind 2: an API NLRI message; kind 3: an internal NLRI value *)
 Definition run_api_nlri_case (p : profile) (x : api_nlri) : val :=
   match net_from_api v6_parse x with
